@@ -42,6 +42,10 @@ num_el = {
                        st.floats(allow_nan=False, allow_infinity=False, width=64)),
     "complex": V.complexes,
 }
+# a column of one dtype whose elements are of different rungs of the ladder (serif keeps the raw values: Vector([1, 2.5]) is
+# a float vector still holding the int 1), incl. ints beyond 2**53 that a float conversion would round
+num_el["mix"] = st.one_of(st.booleans(), st.integers(-4, 6), V.small_floats, st.sampled_from([2 ** 53 + 1, -(2 ** 53) - 1, 0.5]))
+num_el["mixc"] = st.one_of(st.integers(-4, 6), V.small_floats, V.complexes)
 
 
 @st.composite
